@@ -275,3 +275,40 @@ fn c03_config_setters_set_exactly_their_own_field() {
     }
     println!("CASES c03_config {cases}");
 }
+
+/// trampolines whose operands were pushed beforehand (`t: JUMPDEST JUMP` / `t: JUMPDEST JUMPI`): how often one thread went
+/// round is read off the FINAL STACK DEPTH (two resp. one word consumed per round), independently of the visit counters —
+/// no thread executes the jump more often than the iteration limit
+#[test]
+fn c03_trampoline_rounds_measured_by_stack_depth_stay_within_the_limit() {
+    let mut cases = 0;
+    for n in [12usize, 40] {
+        for limit in [1usize, 2, 3, 5, 9] {
+            for (name, jumpi) in [("JUMPDEST JUMP", false), ("JUMPDEST JUMPI", true)] {
+                // n x (PUSH1 1)? PUSH1 t ... ; t: JUMPDEST JUMP|JUMPI ; STOP
+                let per_round = if jumpi { 2 } else { 1 };
+                let mut code: Vec<u8> = vec![];
+                for _ in 0..n { if jumpi { code.extend([0x60, 0x01]); } code.extend([0x60, 0x00]); }
+                let t = code.len();
+                for k in 0..n { let at = (if jumpi { 4 } else { 2 }) * k + (if jumpi { 3 } else { 1 }); code[at] = t as u8; }
+                code.extend([0x5b, if jumpi { 0x57 } else { 0x56 }, 0x00]);
+                if t > 255 { continue; }
+                let cfg = Config::default().with_max_iterations_per_opcode(limit).with_max_forks_per_fork_target(60).with_permissive_errors(true);
+                let is = InstructionStream::try_from(code.as_slice()).unwrap();
+                let mut vm = VM::new(is, cfg, LazyWatchdog.in_rc()).unwrap();
+                let _ = vm.execute();
+                let res = vm.consume();
+                cases += 1;
+                for (i, st) in res.states.iter().enumerate() {
+                    let depth = st.stack().depth() as usize;
+                    let rounds = (per_round * n).saturating_sub(depth) / per_round;
+                    if rounds > limit {
+                        witness("C03", "limits.rounds_by_stack_depth_within_iteration_limit", format!("{n} operand sets, trampoline {name}, iteration limit {limit}, fork limit 60: thread {i}"), format!("{rounds} rounds (final stack depth {depth})"), format!("<= {limit}"));
+                        break;
+                    }
+                }
+            }
+        }
+    }
+    println!("CASES c03_trampolines {cases}");
+}
